@@ -1225,7 +1225,9 @@ impl<'a> Parser<'a> {
     fn parse_import(&mut self) -> Result<ast::Import<'a>, Error> {
         let expr = ok!(self.parse_expr());
         expect_token!(self, Token::Ident("as"), "as");
-        let name = ok!(self.parse_expr());
+        // the module is bound to a name (or an attribute of a namespace),
+        // like every other assignment target
+        let name = ok!(self.parse_assign_name(true));
         ok!(self.skip_context_marker());
         Ok(ast::Import { expr, name })
     }
